@@ -151,3 +151,47 @@ void h_GetMechanismInfo(void)
   VP_COVER(vp_rv == CKR_OK && M == CKM_SHA256); VP_COVER(vp_rv == CKR_OK && M == CKM_EC_KEY_PAIR_GEN); VP_COVER(vp_rv == CKR_MECHANISM_INVALID && !SES(MECH_PERMITTED) && M == CKM_AES_CBC);
   VP_COVER(vp_rv == CKR_MECHANISM_INVALID && SES(MECH_PERMITTED)); VP_COVER(vp_rv == CKR_SLOT_ID_INVALID);
 }
+
+/* ---------------------------------------------------------------------------------------------- C_DeriveKey (whole function) */
+#include "k_gate.h"
+#undef RV
+#define RV __CPROVER_return_value
+#define BCLS (OBJU_HAS(K0, CLASS) ? OBJU(K0, CLASS) : CKO_VENDOR_DEFINED)
+#define BKT (OBJU_HAS(K0, KEY_TYPE) ? OBJU(K0, KEY_TYPE) : CKK_VENDOR_DEFINED)
+#define IS_CONCAT (M == CKM_CONCATENATE_DATA_AND_BASE || M == CKM_CONCATENATE_BASE_AND_DATA || M == CKM_CONCATENATE_BASE_AND_KEY)
+#define IS_ENCDATA (M == CKM_DES_ECB_ENCRYPT_DATA || M == CKM_DES_CBC_ENCRYPT_DATA || M == CKM_DES3_ECB_ENCRYPT_DATA || M == CKM_DES3_CBC_ENCRYPT_DATA || M == CKM_AES_ECB_ENCRYPT_DATA || M == CKM_AES_CBC_ENCRYPT_DATA)
+/* which derivation a mechanism and base key select (0 = none: the base key does not fit the mechanism) */
+#define DER_OF (M == CKM_DH_PKCS_DERIVE ? ((BCLS == CKO_PRIVATE_KEY && BKT == CKK_DH) ? D_DH : 0) : \
+                M == CKM_ECDH1_DERIVE ? ((BCLS == CKO_PRIVATE_KEY && BKT == CKK_EC) ? D_ECDH : (BCLS == CKO_PRIVATE_KEY && BKT == CKK_EC_EDWARDS) ? D_EDDSA : 0) : \
+                IS_CONCAT ? (BCLS == CKO_SECRET_KEY ? D_SYM : 0) : \
+                IS_ENCDATA ? ((BCLS == CKO_SECRET_KEY && ((M == CKM_DES_ECB_ENCRYPT_DATA || M == CKM_DES_CBC_ENCRYPT_DATA) ? BKT == CKK_DES : \
+                               (M == CKM_DES3_ECB_ENCRYPT_DATA || M == CKM_DES3_CBC_ENCRYPT_DATA) ? (BKT == CKK_DES2 || BKT == CKK_DES3) : BKT == CKK_AES)) ? D_SYM : 0) : 0)
+/* the key to be derived, as the template says: class and key type are mandatory except for the concatenation mechanisms (generic secret) */
+#define NEW_CLS t_val(vp_in_ta, NA, CKA_CLASS, 8, IS_CONCAT ? CKO_SECRET_KEY : (CK_ULONG)-1)
+#define NEW_KT t_val(vp_in_ta, NA, CKA_KEY_TYPE, 8, IS_CONCAT ? CKK_GENERIC_SECRET : (CK_ULONG)-1)
+#define NEW_KT_OK (NEW_KT == CKK_GENERIC_SECRET || NEW_KT == CKK_DES || NEW_KT == CKK_DES2 || NEW_KT == CKK_DES3 || NEW_KT == CKK_AES)
+#define DK_ARGS_OK (SES(INIT) && SES(VALID) && !SES(MECH_NULL) && !IN(phNullA) && !IN(tNullA))
+#define DREFUSED (RV != CKR_OK && VP_NO_EFFECT && OUT(der_n) == 0 && OUT(gen_n) == 0)
+CK_RV vp_DeriveKey(void)
+__CPROVER_requires(PRE && OUT(der_n) == 0 && SES(HOBJ0) != SES(HOBJ1))
+__CPROVER_ensures((!DK_ARGS_OK || SES(TOKEN_NULL) || !KEY_OK) ==> DREFUSED)
+/* C01: the base key, and the key to be derived */
+__CPROVER_ensures((KEY_OK && OBJB(K0, PRIVATE) == 2 && !VP_SES_USER) ==> DREFUSED)
+__CPROVER_ensures((DK_ARGS_OK && a_private(1) && !VP_SES_USER) ==> DREFUSED)
+__CPROVER_ensures((DK_ARGS_OK && a_token() && !SES(RW)) ==> DREFUSED)
+/* C07: usage flag, permitted mechanism (asked about THIS key), base key class and type */
+__CPROVER_ensures((KEY_OK && (OBJB(K0, DERIVE) != 2 || !SES(MECH_PERMITTED) || DER_OF == 0)) ==> DREFUSED)
+__CPROVER_ensures((OUT(der_n) > 0) ==> (OUT(der_n) == 1 && OUT(der_kind) == DER_OF && SFX(MECHPERM_N) >= 1 && SFX(MECHPERM_OBJ) == K0 && SFX(MECHPERM_MECH) == M && RV == IN(gen_rv)))
+__CPROVER_ensures(OUT(der_n) == 0 ==> DREFUSED)
+/* what is derived: a secret key of one of the five key types the template names, in this session, from this base key, with the template's flags */
+__CPROVER_ensures((OUT(der_n) > 0) ==> (NEW_CLS == CKO_SECRET_KEY && NEW_KT_OK && OUT(der_keytype) == NEW_KT && OUT(der_hsess) == SES(HSESSION) && OUT(der_hbase) == SES(HARG0) && OUT(der_mech) == M && \
+                                      OUT(der_cnt) == IN(countA) && (OUT(der_tok) != 0) == a_token() && (OUT(der_priv) != 0) == a_private(1)))
+__CPROVER_ensures(OUT(gen_n) == 0 && OUT(gethash_n) == 0 && SFX(SETOPTYPE_N) == 0 && CNT(VALUE_READS) == 0)
+__CPROVER_assigns(__CPROVER_object_whole(vp_out), VP_SOFTHSM_FRAME);
+void vp_call_C_DeriveKey(void) { vp_rv = vp_DeriveKey(); }
+void h_DeriveKey(void)
+{
+  VP_HAVOC_SOFTHSM(); __CPROVER_havoc_object(vp_in); __CPROVER_havoc_object(vp_in_ta); vp_call_C_DeriveKey();
+  VP_COVER(OUT(der_n) == 1 && OUT(der_kind) == D_EDDSA); VP_COVER(OUT(der_n) == 1 && M == CKM_DH_PKCS_DERIVE && NEW_KT == CKK_AES); VP_COVER(OUT(der_n) == 1 && M == CKM_CONCATENATE_BASE_AND_KEY && IN(countA) == 0);
+  VP_COVER(OUT(der_n) == 1 && M == CKM_DES3_CBC_ENCRYPT_DATA && BKT == CKK_DES2); VP_COVER(vp_rv == CKR_KEY_TYPE_INCONSISTENT && M == CKM_ECDH1_DERIVE); VP_COVER(vp_rv == CKR_TEMPLATE_INCOMPLETE); VP_COVER(vp_rv == CKR_USER_NOT_LOGGED_IN && OBJB(K0, PRIVATE) != 2);
+}
